@@ -205,6 +205,36 @@ def corpus(ctx):
     one_case(ctx, pred, ref, E.mk_cfg("MATCHED", ["IOU", "DSC"]), "corpus.far-objects")
 
 
+def merge_label_corpus(ctx):
+    """an over-segmented reference (two fragments whose union scores better) under the merge matcher, its reference and
+    prediction labels renamed to values on either side of 2^8 and 2^16 and up to 2^24 - 1, the top of the range the property quantifies over (values an interpreter or dtype may treat
+    differently from small ones)"""
+    ref = np.zeros((6, 20), np.uint8)
+    pred = np.zeros((6, 20), np.uint8)
+    ref[1:5, 1:11] = 1
+    pred[1:5, 1:8] = 1
+    pred[1:5, 8:11] = 2
+    ref[1:5, 15:18] = 2
+    pred[1:5, 15:18] = 3
+    for mm in ("IOU", "DSC"):
+        cfg = E.mk_cfg("UNMATCHED", ["IOU", "DSC", "RVD"], matcher=E.merge(mm, (1, 2)))
+        base = E.run_impl(cfg, pred, ref)["ungrouped"]
+        for dt, vals in ((np.uint16, (257, 300, 1000)), (np.uint16, (256, 65535, 5)), (np.uint32, (70000, 257, 2 ** 23)), (np.uint64, (2 ** 20, 2 ** 24 - 1, 258)),
+                         (np.uint16, (3, 1, 2)), (np.uint8, (255, 254, 128))):
+            a, b, c = vals
+            sig, tau = {1: a, 2: b, 3: c}, {1: c, 2: a}
+            p2, r2 = relabel(pred, sig, dt), relabel(ref, tau, dt)
+            inp = {"shape": [6, 20], "pred": gen.arr_json(pred), "ref": gen.arr_json(ref), "cfg": cfg, "dtype": str(np.dtype(dt)),
+                   "sigma": {str(k): v for k, v in sig.items()}, "tau": {str(k): v for k, v in tau.items()}, "src": "corpus.merge-labels"}
+            ctx.case(inp, True)
+            ctx.count("merge_label_corpus")
+            got = E.run_impl(cfg, p2, r2)
+            d = "raised " + got if isinstance(got, str) else summ_equal(base, got["ungrouped"], cfg["eval_metrics"])
+            if d:
+                ctx.violation(f"result changes under relabelling/dtype ({np.dtype(dt)}, merge matcher, labels {vals}): {d}", inp,
+                              impl={"base": base, "relabelled": got}, key={"kind": "not-invariant"})
+
+
 def wrap_sum_corpus(ctx):
     """an overlapping pair whose labels sum to 2^bits, far (> crop padding) from every other foreground voxel"""
     base_r = np.zeros((12, 24), np.uint8)
@@ -396,6 +426,7 @@ def run(ctx):
     environment_cases(ctx, ctx.scale(10, 60))
     grouped_relabel_cases(ctx, ctx.scale(60, 600))
     wrap_sum_corpus(ctx)
+    merge_label_corpus(ctx)
     near_tie_relabel(ctx, ctx.scale(4, 30))
     run_cases(ctx, ctx.scale(250, 2500), "rand")
 
